@@ -375,6 +375,11 @@ inline bool do_decode_resize(std::vector<T>& v, const uint8_t*& pos, const uint8
     {
         return false;
     }
+    if (size_t(n) > size_t(end - pos))
+    {
+        /// each element occupies at least one byte: cannot be satisfied, don't allocate
+        return false;
+    }
     v.resize(n);
     return true;
 }
